@@ -8,7 +8,8 @@ use serde_json::{json, Value};
 
 const RULE: &str = "sequences of 1-6 rule groups (one rule each) x generated words (incl. tones up to 4 digits on adjacent syllables, long segments, multi-node places): rules from the full-grammar generator, from the rules harvested from the test-suite and manual, and from templates biased to what restructures a word (deletion of segments / syllables / `$`, metathesis with `$`, insertion of `$`, `%` and structures, syllable substitution, tone merging through `$ > *`, node alphas, `[-place]`, `[±lab/cor/dor/phr]`); after EVERY group of every successful run the walker checks: >= 1 syllable, no empty syllable, tone has <= 4 digits and no 0 digit, root/laryngeal use only their 3 bits, place is never Some(0), no feature bits under an absent sub-node. Non-trivial = the sequence changed the word's shape (segment count, syllable count or a place value); distinct = distinct (rules, word).";
 
-pub const TEMPLATES: [&str; 46] = [
+pub const TEMPLATES: [&str; 51] = [
+    "% > [tone: 30]", "V > [tone: 105]", "%:[tone: 5] > [tone: 10234]", "% > [tone: 050]", "* > ⟨ta⟩:[tone: 2040] / _#",
     "$ > *", "$ > * / _C", "$ > * / V_", "V > * / _#", "C > * / #_", "V > *", "C > *", "% > * / _#", "% > * / #_", "%:[-stress] > *",
     "$C > &", "C$ > &", "$V > &", "V$ > & / _C", "CV > &", "%% > &", "* > $ / V_C", "* > $ / C_C", "* > $ / _V", "* > % / V_", 
     "* > ⟨ta⟩ / _#", "* > ⟨a⟩:[+stress] / #_", "C > C$", "V > V$ / _C", "C > ⟨pa⟩", "V > ⟨an⟩:[tone:51]", "% > ⟨ka⟩ / _#", "V > [tone:35]", "% > [tone:1234]", "$ > * / V:[tone:51]_",
@@ -41,7 +42,7 @@ fn toned_word(r: &mut Rng) -> String {
     (0..n).map(|_| format!("{}{}{}", r.pick(&CONS), r.pick(&VOWS), [5u16, 51, 214, 1234, 35, 3, 12, 4321][r.below(8)])).collect::<Vec<_>>().join("")
 }
 
-fn gen(r: &mut Rng, corpus: &[String]) -> Case {
+pub(crate) fn gen(r: &mut Rng, corpus: &[String]) -> Case {
     let k = r.range(1, 6);
     let mut rules = Vec::new();
     for _ in 0..k {
@@ -79,7 +80,7 @@ pub fn judge(rep: &mut Report, c: &Case) {
 
 pub fn explore(ctx: &Ctx, shard: usize, n: usize) -> Report {
     let (corpus, _) = harvest(&ctx.repo);
-    drive::cases(ctx, shard, n, RULE, 0x08, 300_000, 20_000_000, |r, rep, _| { let c = gen(r, &corpus); judge(rep, &c); })
+    drive::cases(ctx, shard, n, RULE, 0x08, 300_000, 80_000_000, |r, rep, _| { let c = gen(r, &corpus); judge(rep, &c); })
 }
 
 pub fn replay(_ctx: &Ctx, case: &Value) -> Report {
